@@ -63,7 +63,7 @@ def device_case(draw):
     for r in used_rows:
         call, a = one(r)
         # started at top level, or in the arm of an if/else that the run takes (the other arm names another animation for the same row, never started)
-        place = draw(st.sampled_from(["top", "top", "if", "else"]))
+        place = draw(st.sampled_from(["top", "if", "else", "else"]))
         if place == "top":
             lines.append(call)
         else:
